@@ -1,5 +1,5 @@
 # src/dseq.c (C15)
 TU('dseq', 'src/dseq.c', SRC_CFLAGS + ['-Dmain=dseq_main'], pre=['spec/greg.h', 'spec/iso.h'], post=['contracts/dseq.contracts.h'])
-G('ds.date_add.tonly', 'dseq', 'date_add', ['C15'], body='\tstruct dt_dt_s d; struct dt_dtdur_s *dur; size_t n;\n\tdate_add(d, dur, n);', replace=['dt_dtadd'], native=False,
+G('ds.date_add.tonly', 'dseq', 'date_add', ['C15'], body='\tstruct dt_dt_s d; struct dt_dtdur_s *dur; size_t n;\n\tdate_add(d, dur, n);', replace=['dt_dtadd'], needs={'dt_dtadd': r'\.tonly\.'}, native=False,
   unwind=4, timeout=900,
   bounded=dict(bound='increment stacks of at most 2 components, each shorter than a day (loop over the stack unwound with unwinding assertion)', why='the sum over the stack has no closed form usable in a loop invariant without ghost state'))
